@@ -1234,13 +1234,20 @@ def in_stereo_domain(mol):
     return True
 
 
+def _meta_of(o):
+    # the readers' own bookkeeping keys (parsing log, …) are not record content; text the reader could not attach to a
+    # key (`chython_unparsed_metadata`) IS: nothing of that kind was written
+    return {k: (v if isinstance(v, str) else repr(v)) for k, v in o.meta.items()
+            if not k.startswith('chython_') or k == 'chython_unparsed_metadata'}
+
+
 def obj_record(o):
     from chython import ReactionContainer
     if isinstance(o, ReactionContainer):
         return {'rxn': {'reactants': [record(m) for m in o.reactants], 'products': [record(m) for m in o.products],
                         'reagents': [record(m) for m in o.reagents], 'name': o.name.strip()},
-                'meta': {k: v for k, v in o.meta.items() if not k.startswith('chython_')}}
-    return {'mol': record(o), 'meta': {k: v for k, v in o.meta.items() if not k.startswith('chython_')}}
+                'meta': _meta_of(o)}
+    return {'mol': record(o), 'meta': _meta_of(o)}
 
 
 def expected_record(o):
@@ -1338,17 +1345,34 @@ def check_text(inp):
     return None
 
 
-def index_check(fmt, text, suffix):
-    """random access by index == sequential reading (real file, real grep index)"""
+def index_check(fmt, text, suffix, expect=None, how=None):
+    """random access by index == sequential reading (real file, real grep index); with `expect`, sequential reading
+    must also give exactly these records (the file is a re-spelling of a written file)"""
     _, Rd = io_classes(fmt)
     d = tempfile.mkdtemp(prefix='c11_')
     p = os.path.join(d, 'f' + suffix)
     inp = {'kind': 'index', 'fmt': fmt, 'text': text, 'suffix': suffix}
+    if expect is not None:
+        inp['expect'] = expect
+        inp['how'] = how
     try:
         with open(p, 'w', newline='') as f:
             f.write(text)
         seq = [_jsonish(obj_record(o)) for o in Rd(p, calc_cis_trans=True)]
-        r = Rd(p, indexable=True, calc_cis_trans=True)
+        if expect is not None:
+            if len(seq) != len(expect):
+                return (f'C11/foreign/{Rd.__name__}/record-count', f'{how}: {len(seq)} records read sequentially, {len(expect)} expected', inp)
+            for i, (e, b) in enumerate(zip(expect, seq)):
+                dd = diff_records(e, b)
+                if dd:
+                    return (f'C11/foreign/{Rd.__name__}/' + '+'.join(dd)[:60], f'{how}: record {i} differs from the same record in the original file: {dd}', inp)
+        try:
+            r = Rd(p, indexable=True, calc_cis_trans=True)
+        except Exception as e:
+            if not seq:
+                return None
+            return (f'C11/index/{Rd.__name__}/cannot-index/{type(e).__name__}',
+                    f'indexable reader cannot be built ({type(e).__name__}) for a file that reads sequentially as {len(seq)} records' + (f' [{how}]' if how else ''), inp)
         try:
             if len(r) != len(seq):
                 return (f'C11/index/{Rd.__name__}/length', f'len(indexed)={len(r)} but {len(seq)} records are read sequentially', inp)
@@ -1359,6 +1383,11 @@ def index_check(fmt, text, suffix):
                     return (f'C11/index/{Rd.__name__}/{type(e).__name__}', f'reader[{i}] raised {type(e).__name__} (sequential reading returns {len(seq)} records)', inp)
                 if _jsonish(obj_record(o)) != seq[i]:
                     return (f'C11/index/{Rd.__name__}/record-differs', f'reader[{i}] differs from the {i}-th record read sequentially', inp)
+            if seq:
+                if _jsonish(obj_record(r[-1])) != seq[-1]:
+                    return (f'C11/index/{Rd.__name__}/record-differs', 'reader[-1] differs from the last record read sequentially', inp)
+                if [_jsonish(obj_record(o)) for o in r[0:len(seq)]] != seq:
+                    return (f'C11/index/{Rd.__name__}/slice-differs', 'reader[0:n] differs from sequential reading', inp)
         finally:
             r.close()
             try:
@@ -1391,7 +1420,15 @@ def _spec_objs(specs):
             return m
         if 'rxn' in sp:
             r, p_ = sp['rxn']
-            o = ReactionContainer([mk(x) for x in r], [mk(x, 100) for x in p_])
+            rs, off = [], 0
+            for x in r:                      # disjoint atom numbers within a side (duplicates are renumbered by the reader)
+                rs.append(mk(x, off))
+                off += len(rs[-1])
+            ps, off = [], 100
+            for x in p_:
+                ps.append(mk(x, off))
+                off += len(ps[-1])
+            o = ReactionContainer(rs, ps)
         else:
             o = mk(sp['smiles'])
         o.name = sp.get('name', '')
@@ -1487,6 +1524,88 @@ def sessions_stream(ctx, n):
             r = sessions_check(inp)
             if r:
                 ctx.fail(*r)
+
+
+def foreign_spellings(rng, fmt, text):
+    """the same records as other programs spell them: delimiter / marker lines with trailing blanks or text, CRLF line
+    ends, no final line end, blank lines after the last record"""
+    sdf = fmt in ('SDFWrite', 'ESDFWrite')
+    lines = text.split('\n')
+    out = []
+    if sdf:
+        idx = [i for i, l in enumerate(lines) if l == '$$$$']
+        for pad in ('  ', ' ', '\t'):
+            ls = list(lines)
+            for i in idx:
+                if rng.random() < 0.6:
+                    ls[i] = '$$$$' + pad
+            if ls != lines:
+                out.append((f'delimiter lines with trailing {pad!r}', '\n'.join(ls)))
+        if idx:
+            ls = list(lines)
+            ls[rng.choice(idx)] = '$$$$ '
+            out.append(('one delimiter line with a trailing blank', '\n'.join(ls)))
+    else:
+        idx = [i for i, l in enumerate(lines) if l in ('$RFMT', '$MFMT')]
+        ls = list(lines)
+        for n, i in enumerate(idx):
+            ls[i] = lines[i] + (f' $RIREG {n + 1}' if lines[i] == '$RFMT' else f' $MIREG {n + 1}')
+        out.append(('registry numbers on the marker lines', '\n'.join(ls)))
+        ls = list(lines)
+        for i in idx:
+            if rng.random() < 0.6:
+                ls[i] = lines[i] + '  '
+        if ls != lines:
+            out.append(('marker lines with trailing blanks', '\n'.join(ls)))
+    out.append(('CRLF line ends', text.replace('\n', '\r\n')))
+    if text.endswith('\n'):
+        out.append(('no line end after the last line', text[:-1]))
+        out.append(('CRLF line ends, none after the last line', text[:-1].replace('\n', '\r\n')))
+    out.append(('blank lines after the last record', text + '\n\n'))
+    return out
+
+
+def foreign_stream(ctx, mols, n):
+    rng = ctx.rng
+    for fmt, suffix in (('SDFWrite', '.sdf'), ('ESDFWrite', '.sdf'), ('RDFWrite', '.rdf'), ('ERDFWrite', '.rdf')):
+        for _ in range(n):
+            objs = make_objects(rng, mols, fmt, rng.choice([2, 3, 5, 8]))
+            text = write_text(fmt, objs)
+            good = [_jsonish(obj_record(o)) for o in read_text(fmt, text)]
+            if len(good) != len(objs):
+                continue
+            for how, t in foreign_spellings(rng, fmt, text):
+                ctx.count(('RT-foreign', fmt, t))
+                ctx.dist('RT:foreign:' + fmt)
+                r = index_check(fmt, t, suffix, expect=good, how=how)
+                if r:
+                    ctx.fail(*r)
+
+
+def history_specs(rng, fmt, k):
+    """record orders that make a reader's per-record state visible: with / without metadata, short / long, molecule /
+    reaction, one-sided reactions — every permutation of four such records is a history"""
+    import itertools
+    rx = fmt in ('RDFWrite', 'ERDFWrite', 'MRVWrite')
+    a = {'rxn': [['CCO'], ['CC=O']], 'name': 'small with data', 'meta': {'yield': '95', 'note': 'line 1\nline 2'}} if rx else \
+        {'smiles': 'CO', 'name': 'small with data', 'meta': {'yield': '95', 'note': 'line 1\nline 2'}}
+    b = {'rxn': [['CC(=O)O', 'OCC', 'CCCCCCCC'], ['CC(=O)OCC', 'O']], 'name': 'big without data'} if rx else \
+        {'smiles': 'CCCCCCCCCCCCCCCCCCCC', 'name': 'big without data'}
+    c = {'smiles': 'CC(C)CC(C)CC(C)C', 'name': 'molecule without data'}
+    d = {'rxn': [['C=C'], []], 'name': 'one-sided with data', 'meta': {'k': 'v'}} if rx else {'smiles': 'N', 'name': 'other with data', 'meta': {'k': 'v'}}
+    perms = list(itertools.permutations([a, b, c, d]))
+    rng.shuffle(perms)
+    return [{'kind': 'sessions', 'fmt': fmt, 'sessions': [list(p)], 'first_append': False, 'target': 'str', 'with': True} for p in perms[:k]]
+
+
+def history_stream(ctx, k):
+    for fmt in WRITERS:
+        for inp in history_specs(ctx.rng, fmt, k):
+            ctx.count(('RT-history', fmt, tuple(sp['name'] for sp in inp['sessions'][0])))
+            ctx.dist('RT:history:' + fmt)
+            r = sessions_check(inp)
+            if r:
+                ctx.fail(r[0].replace('/sessions/', '/history/'), r[1], inp)
 
 
 def damage_check(inp):
@@ -1590,6 +1709,8 @@ def stream_roundtrip(ctx, mols, n):
             if r:
                 ctx.fail(*r)
     sessions_stream(ctx, 6 if ctx.quick else 60)
+    history_stream(ctx, 6 if ctx.quick else 24)
+    foreign_stream(ctx, mols, 2 if ctx.quick else 20)
     for fmt in WRITERS:
         for _ in range(n):
             objs = make_objects(rng, mols, fmt, rng.choice([1, 1, 2, 3]))
@@ -1784,7 +1905,7 @@ def probe(inp):
     if kind == 'roundtrip-text':
         r = check_text(inp)
     elif kind == 'index':
-        r = index_check(inp['fmt'], inp['text'], inp['suffix'])
+        r = index_check(inp['fmt'], inp['text'], inp['suffix'], inp.get('expect'), inp.get('how'))
     elif kind == 'damage':
         r = damage_check(inp)
     elif kind == 'meta':
